@@ -1062,7 +1062,7 @@ class StreamSummary(StreamResult):
         # details are arbitrary bytes and need not decode.
         try:
             return render()
-        except (ValueError, LookupError) as e:
+        except Exception as e:
             return "Undecodable details for %s: %s" % (case.id(), e)
 
     def _exists(self, case):
